@@ -179,6 +179,10 @@ run_directed = directed.run
 
 def cases(tier, rng):
     thorough = tier == "thorough"
+    for c in directed.closed_from_another_context_cases():
+        yield "directed-closed-from-another-context", c
+    for c in directed.proxies_and_nested_constructors_cases():
+        yield "directed-nested-constructor-exceptions", c
     for c in directed.exception_from_new_cases():
         yield "directed-exception-from-new", c
     for c in directed.interrupt_while_message_is_built_cases():
